@@ -251,8 +251,8 @@ Record flow := mkFlow {
   f_conn : N;                       (* identity of flow.client_conn *)
   f_is_proxy : bool;                (* is_http_proxy(f): client_conn.proxy_mode is Regular or Upstream *)
   f_replay : bool;                  (* f.is_replay *)
-  f_hdrs : headers;                 (* f.request.headers.fields *)
   f_stream : bool;                  (* f.request.stream (set by check_body_size before the hook) *)
+  f_hdrs : headers;                 (* f.request.headers.fields *)
   f_resp : option N;                (* status code of f.response, None if unset *)
   f_meta : option (str * str) }.    (* f.metadata[proxyauth] *)
 
